@@ -88,6 +88,9 @@ fn main() {
                 let mut rng = rng::Rng::new(1);
                 let mut cfg = props::default_host(&prog, &mut rng);
                 cfg.handler = true; cfg.fallbacks = true;
+                if std::env::args().any(|a| a == "--unsafe") { for b in cfg.bindings.iter_mut() { b.1 = false; } }
+                if std::env::args().any(|a| a == "--safe") { for b in cfg.bindings.iter_mut() { b.1 = true; } }
+                cfg.ext_ret = 3;
                 let mut h = match host::Host::new(&prog, &cfg) { Ok(h) => h, Err(r) => return vec![format!("construct failed: {}", r.brief())] };
                 let mut k = 0;
                 for _ in 0..200 {
